@@ -1988,8 +1988,11 @@ fn gen_c08(r: &mut Rng, seed: u64) -> Scenario {
     for mi in 1..b.modules.len() {
         if r.chance(1, 6) {
             let end = b.modules[mi].base + b.modules[mi].image.mapped_len;
-            if !b.world.regions.iter().any(|g| g.start < end + 0x3000 && end < g.end()) {
-                b.world.regions.push(RegionSpec { start: end, len: r.range(1, 3) * 0x1000, perms: "---p".into(), offset: 0, inode: 0, name: B(Vec::new()), deleted: false, content: Content::Zero });
+            // now and then an enormous inaccessible reservation (a runtime reserving address space right
+            // behind a library): the module's extent then exceeds what the 32-bit size field can hold
+            let len = r.range(1, 3) * 0x1000;
+            if !b.world.regions.iter().any(|g| g.start < end + len + 0x1000 && end < g.end()) {
+                b.world.regions.push(RegionSpec { start: end, len, perms: "---p".into(), offset: 0, inode: 0, name: B(Vec::new()), deleted: false, content: Content::Zero });
                 push_tags(&mut tags, &["trailing-reserved-gap"]);
             }
         }
@@ -2102,6 +2105,26 @@ fn gen_c08(r: &mut Rng, seed: u64) -> Scenario {
     }
     if r.chance(1, 6) {
         sc_force_file_fallback(&mut tags);
+    }
+    if r.chance(1, 8) {
+        // an enormous inaccessible reservation right behind a library (a runtime reserving address
+        // space): the module's extent then exceeds what the 32-bit size field can hold. Placed last, where
+        // the address space behind the library is free.
+        let len = *r.pick(&[0xffff_f000u64, 1 << 32, 5 << 30]);
+        b.world.regions.sort_by_key(|g| g.start);
+        let cands: Vec<u64> = b
+            .modules
+            .iter()
+            .skip(1)
+            .map(|m| m.base + m.image.mapped_len)
+            .filter(|end| b.world.regions.iter().any(|g| g.end() == *end && g.perms.as_bytes()[2] != b'x' || g.end() == *end) && !b.world.regions.iter().any(|g| g.start < end + len + 0x1000 && *end < g.end()))
+            .collect();
+        if !cands.is_empty() {
+            let end = *r.pick(&cands);
+            b.world.regions.push(RegionSpec { start: end, len, perms: "---p".into(), offset: 0, inode: 0, name: B(Vec::new()), deleted: false, content: Content::Zero });
+            b.world.regions.sort_by_key(|g| g.start);
+            push_tags(&mut tags, &["huge-reserved-gap"]);
+        }
     }
     if r.chance(1, 12) {
         zombie_leader(r, &mut b, &mut opts, &mut tags);
